@@ -787,6 +787,13 @@ class Hydrodynamics:
                     rtol=self.rtol,
                 )
             vp, vm, Tp, Tm = self.matchDeflagOrHyb(vwTry, sol.root)
+            if not self.success:
+                # The matching equations did not converge at the root found above, so
+                # these numbers are not a solution. Use the template model instead, as
+                # in the case where no root could be bracketed.
+                return self.template.findMatching(
+                    min(vwTry, self.template.vJ - 1e-6)
+                )
 
         return (vp, vm, Tp, Tm)
 
